@@ -99,6 +99,16 @@ CHECKS['C17'] = dict(
     technique="Coq proof (stack simulation between lexical normalisation and kernel path walk; first-hit search) + exhaustive small-scope differential check with the kernel as oracle",
     ref="5/C17")
 
+CHECKS['C13'] = dict(
+    text="Proof (partial): merge_from (model transcribing the type mapping by true name, merge_with, per-record remapping) carries every cross reference over: merging a closed "
+         "database in its own fresh range into a closed database is closed; each file receives a contiguous range starting at next_index; merge_with keeps global-ness as the union "
+         "and never loses 'fully defined', and the fully defined side survives in either order. Order independence of the whole load is NOT proved (it is false when two files fully "
+         "define one global type: recorded finding); it is tested: every load order of generated 2-4 library modules must give the same name-keyed query dump, also with by-name "
+         "lookups interleaved with load requests. Correspondence: the merged database written by libinterrogatedb must equal the extracted load_all byte for byte in every order.",
+    note=TB + "owner library of non-global incidental types (int, T*, T const) is excluded from the order comparison; order independence is exploration, closure/ranges/flags are proved.",
+    technique="Coq proof (closure preserved by merge, range arithmetic, flag algebra) + byte-exact differential check of load/merge in all permutations + interleaved lookups",
+    ref="5/C13")
+
 PENDING = {
 }
 
